@@ -1,3 +1,302 @@
 package main
 
-func cmdCheck(args []string) int { return 0 }
+import (
+	"encoding/json"
+	"flag"
+	"fmt"
+	"os"
+	"path/filepath"
+	"regexp"
+	"sort"
+	"strconv"
+	"strings"
+	"time"
+)
+
+type KnownFinding struct {
+	Property    string `json:"property"`
+	Status      string `json:"status"` // known | fixed
+	Obligation  string `json:"obligation"`
+	Config      string `json:"config,omitempty"`
+	Description string `json:"description"`
+	Commit      string `json:"commit,omitempty"`
+	Finding     string `json:"finding,omitempty"`
+}
+
+type PropSpec struct {
+	Configs       []BuildConfig `json:"configs,omitempty"`        // quick tier
+	ThoroughExtra []BuildConfig `json:"thorough_configs,omitempty"` // additional configurations in the thorough tier
+	Level         string        `json:"level,omitempty"`
+	Uncovered     []string      `json:"uncovered,omitempty"`
+	Assumptions   []string      `json:"assumptions,omitempty"`
+}
+
+type Ledger map[string][]string // property -> obligation names ("config|name")
+
+func loadJSON(path string, v any) error {
+	data, err := os.ReadFile(path)
+	if err != nil {
+		return err
+	}
+	return json.Unmarshal(data, v)
+}
+
+type oblEvidence struct {
+	Name    string `json:"name"`
+	Class   string `json:"class"`
+	Config  string `json:"config"`
+	Status  string `json:"status"`
+	Solver  string `json:"solver"`
+	Ms      int64  `json:"ms"`
+	VCBytes int    `json:"vc_bytes"`
+}
+
+var fileSan = regexp.MustCompile(`[^A-Za-z0-9_.#@\[\]$-]`)
+
+func cmdCheck(args []string) int {
+	fs := flag.NewFlagSet("check", flag.ExitOnError)
+	repo := fs.String("repo", "/repo", "")
+	vdir := fs.String("verif", "/verif", "")
+	prop := fs.String("prop", "", "")
+	thorough := fs.Bool("thorough", false, "")
+	updateLedger := fs.Bool("update-ledger", false, "")
+	replayPath := fs.String("replay", "", "")
+	fs.Parse(args)
+	if *prop == "" {
+		fmt.Fprintln(os.Stderr, "check: --prop required")
+		return 2
+	}
+	if *replayPath != "" {
+		return cmdReplay(*repo, *replayPath)
+	}
+	start := time.Now()
+	tier := "quick"
+	timeoutS := 20
+	if *thorough {
+		tier = "thorough"
+		timeoutS = 120
+	}
+	seed := 0
+	if s := os.Getenv("VERIF_SEED"); s != "" {
+		seed, _ = strconv.Atoi(s)
+	}
+	var specs map[string]PropSpec
+	loadJSON(filepath.Join(*vdir, "contracts", "props.json"), &specs)
+	spec := specs[*prop]
+	configs := spec.Configs
+	if len(configs) == 0 {
+		configs = []BuildConfig{defaultConfig()}
+	}
+	if *thorough {
+		configs = append(configs, spec.ThoroughExtra...)
+	}
+	var known []KnownFinding
+	loadJSON(filepath.Join(*vdir, "known_findings.json"), &known)
+	ledger := Ledger{}
+	loadJSON(filepath.Join(*vdir, "contracts", "ledger.json"), &ledger)
+
+	scratch, _ := os.MkdirTemp("", "gpv-"+*prop+"-")
+	defer os.RemoveAll(scratch)
+	replayDir := filepath.Join(*vdir, "replay", *prop)
+	os.RemoveAll(replayDir)
+
+	var obls []oblEvidence
+	var violations []string
+	var knownLines []string
+	trusted := map[string]bool{}
+	notes := map[string]bool{}
+	funcs := map[string]bool{}
+	seenNames := map[string]bool{}
+	nObl, nDis, nCover, nKnown := 0, 0, 0, 0
+	var solverS float64
+	nReplays, maxReplays := 0, 4
+	if *thorough {
+		maxReplays = 16
+	}
+	var samples []any
+	var loadS, encS float64
+	violate := func(name, cfg string, r *Result, u *Unit, reason string, w *World) {
+		// known finding?
+		for _, k := range known {
+			if k.Property == *prop && k.Status == "known" && k.Obligation == name && (k.Config == "" || k.Config == cfg) {
+				knownLines = append(knownLines, fmt.Sprintf("KNOWN-FINDING: property=%s %s [%s] %s", *prop, name, k.Finding, k.Description))
+				nKnown++
+				return
+			}
+		}
+		os.MkdirAll(replayDir, 0o755)
+		rp := filepath.Join(replayDir, fileSan.ReplaceAllString(cfg+"_"+name, "_")+".json")
+		nReplays++
+		var rep *ReplayFile
+		if nReplays > maxReplays {
+			rep = buildReplay(*repo, *prop, cfg, name, r, nil, reason, nil, scratch)
+			rep.Note = fmt.Sprintf("replay budget of this run (%d executed replays) exhausted; use --replay on this file's obligation after fixing the earlier ones, or run the thorough tier", maxReplays)
+		} else {
+			rep = buildReplay(*repo, *prop, cfg, name, r, u, reason, w, scratch)
+		}
+		writeJSON(rp, rep)
+		line := fmt.Sprintf("VIOLATION property=%s replay=%s", *prop, rp)
+		if !rep.Confirmed {
+			line += " no-failing-input-found"
+		}
+		violations = append(violations, line)
+		fmt.Printf("  failed obligation: %s [%s] %s\n", name, cfg, reason)
+	}
+	for _, cfg := range configs {
+		out, err := runProperty(*repo, *prop, cfg, timeoutS, filepath.Join(scratch, cfg.Name), "")
+		if err != nil {
+			name := "load:" + cfg.Name
+			violate(name, cfg.Name, nil, nil, "contracts or code no longer load: "+err.Error(), nil)
+			nObl++
+			continue
+		}
+		loadS += out.LoadS
+		encS += out.EncodeS
+		solverS += out.SolveS
+		for _, u := range out.Units {
+			funcs[u.Name] = true
+			for t := range u.Trusted {
+				trusted[t] = true
+			}
+			for _, n := range u.Notes {
+				notes[n] = true
+			}
+			if u.Failed != "" {
+				nObl++
+				seenNames[cfg.Name+"|"+u.Name+"#encode"] = true
+				violate(u.Name+"#encode", cfg.Name, nil, u, "unit cannot be encoded: "+u.Failed, out.World)
+			} else {
+				seenNames[cfg.Name+"|"+u.Name+"#encode"] = true
+			}
+		}
+		for _, r := range out.Results {
+			seenNames[cfg.Name+"|"+r.Obl.Name] = true
+			oe := oblEvidence{Name: r.Obl.Name, Class: r.Obl.Class, Config: cfg.Name, Status: r.Status, Solver: r.Solver, Ms: r.Ms, VCBytes: r.VCBytes}
+			obls = append(obls, oe)
+			if r.Obl.IsCover {
+				nCover++
+				if r.Status != "cover-ok" {
+					violate(r.Obl.Name, cfg.Name, r, r.Unit, "vacuity guard: the assumptions of this unit are not satisfiable ("+r.Answer+")", out.World)
+				}
+				continue
+			}
+			nObl++
+			if r.Status == "discharged" {
+				nDis++
+				if len(samples) < 4 && r.Answer == "unsat" {
+					samples = append(samples, map[string]any{"obligation": r.Obl.Name, "class": r.Obl.Class, "solver": r.Solver, "ms": r.Ms, "vc_bytes": r.VCBytes, "at": fmt.Sprintf("%s:%d", filepath.Base(r.Obl.Pos.Filename), r.Obl.Pos.Line)})
+				}
+				continue
+			}
+			before := nKnown
+			violate(r.Obl.Name, cfg.Name, r, r.Unit, fmt.Sprintf("%s (solver answer: %s) at %s:%d", r.Obl.Detail, r.Answer, r.Obl.Pos.Filename, r.Obl.Pos.Line), out.World)
+			if nKnown > before {
+				nObl-- // known findings are reported separately, not counted as obligations of the claim
+			}
+		}
+	}
+	// ledger
+	var names []string
+	for n := range seenNames {
+		names = append(names, n)
+	}
+	sort.Strings(names)
+	if *updateLedger {
+		ledger[*prop] = names
+		writeJSON(filepath.Join(*vdir, "contracts", "ledger.json"), ledger)
+		fmt.Printf("ledger updated: %d names for %s\n", len(names), *prop)
+	} else if !*thorough || true {
+		want := ledger[*prop]
+		if len(want) == 0 {
+			nObl++
+			violate("ledger:missing", "-", nil, nil, "no ledger entry for this property (zero expected obligations)", nil)
+		}
+		for _, n := range want {
+			cfgName := strings.SplitN(n, "|", 2)[0]
+			inRun := false
+			for _, c := range configs {
+				if c.Name == cfgName {
+					inRun = true
+				}
+			}
+			if !inRun {
+				continue
+			}
+			if !seenNames[n] {
+				nObl++
+				parts := strings.SplitN(n, "|", 2)
+				violate(parts[1], parts[0], nil, nil, "obligation listed in the ledger was not generated (contract no longer binds, function or loop vanished)", nil)
+			}
+		}
+	}
+	for _, l := range knownLines {
+		fmt.Println(l)
+	}
+	for _, v := range violations {
+		fmt.Println(v)
+	}
+	// evidence
+	var tl, nl, fl []string
+	for t := range trusted {
+		tl = append(tl, t)
+	}
+	sort.Strings(tl)
+	for n := range notes {
+		nl = append(nl, n)
+	}
+	sort.Strings(nl)
+	for f := range funcs {
+		fl = append(fl, f)
+	}
+	sort.Strings(fl)
+	baseTrusted := []string{
+		"go/types + go/ssa (x/tools v0.29.0) represent /repo's source faithfully",
+		"gpverify's SSA->SMT encoding (DESIGN.md section 3): bit-precise integers, (object,offset) memory, amd64",
+		"SMT solvers z3 5.1.0 / z3 4.8.12 / cvc5 1.0.3 (an unsat from any one is accepted)",
+		"Go memory safety outside unsafe; allocation sizes and offsets below 2^40 slots",
+	}
+	assumptions := append([]string{}, spec.Assumptions...)
+	for _, n := range nl {
+		assumptions = append(assumptions, "unmodelled: "+n)
+	}
+	for _, u := range spec.Uncovered {
+		assumptions = append(assumptions, "not covered by this check: "+u)
+	}
+	if len(samples) == 0 && len(obls) > 0 {
+		samples = append(samples, obls[0])
+	}
+	ev := map[string]any{
+		"property_id": *prop,
+		"tier":        tier,
+		"seed":        seed,
+		"level":       "proof",
+		"coverage": map[string]any{
+			"obligations":                nObl,
+			"discharged":                 nDis,
+			"checker_cmd":                fmt.Sprintf("/verif/bin/gpverify check --prop %s%s  (per obligation: z3-new -smt2 | cvc5 | z3 -smt2)", *prop, map[bool]string{true: " --thorough", false: ""}[*thorough]),
+			"trusted_base":               append(baseTrusted, tl...),
+			"samples":                    samples,
+			"functions_under_contract":   fl,
+			"covers_checked":             nCover,
+			"known_finding_obligations":  nKnown,
+			"configurations":             configs,
+			"per_obligation":             obls,
+			"solver_wall_s":              solverS,
+			"load_s":                     loadS,
+			"encode_s":                   encS,
+			"integers":                   "64/32/16/8-bit bit-vectors with Go wrap-around semantics (nothing is a mathematical integer)",
+			"obligation_timeout_s":       timeoutS,
+			"uncovered_parts":            spec.Uncovered,
+		},
+		"assumptions": assumptions,
+		"wall_s":      time.Since(start).Seconds(),
+		"violations":  len(violations),
+	}
+	writeJSON(filepath.Join(*vdir, "evidence", *prop+".json"), ev)
+	fmt.Printf("%s %s: %d obligations, %d discharged, %d covers, %d known findings, %d violations (load %.1fs, encode %.1fs, solve %.1fs)\n",
+		*prop, tier, nObl, nDis, nCover, nKnown, len(violations), loadS, encS, solverS)
+	if len(violations) > 0 {
+		return 1
+	}
+	return 0
+}
